@@ -131,7 +131,7 @@ pub fn gen_scenario(rng: &mut Rng, prop: &str) -> Scenario {
         // with rate limiting on, only the transport-level clauses are judged (see the driver)
         cfg.rrl = Some(RrlCfg { noerror: *rng.pick(&[1u32, 2]), nxdomain: 1, error: 1, window: *rng.pick(&[1u32, 2, 15]), slip: rng.range(1, 3), v4_prefix: 24, v6_prefix: 56, size: 1024 });
     }
-    if matches!(prop, "c04" | "c05" | "c07" | "c09") && rng.chance(1, 3) {
+    if matches!(prop, "c04" | "c05" | "c07" | "c08" | "c09") && rng.chance(1, 3) {
         // validly signed requests must be answered like unsigned ones (plus the TSIG record)
         cfg.keys = gen_keys(rng, &names);
     }
@@ -378,6 +378,25 @@ fn gen_request(rng: &mut Rng, sc: &Scenario, prop: &str) -> (Vec<u8>, &'static s
             _ => {}
         }
         let (signed, _, _) = sign_request(&base, &key, &o);
+        // an otherwise valid TSIG record whose class alone, TTL alone, or both are wrong
+        if matches!(prop, "c01" | "c02" | "c03" | "c08") && rng.chance(1, 6) {
+            let which = rng.below(3);
+            let class = *rng.pick(&[1u16, 3, 4, 254, 0, 0xff00]);
+            let ttl = *rng.pick(&[1u32, 0x100, 0x0001_0000, 0x7fff_ffff, 3600]);
+            if let Some(t) = crate::reqclass::classify(&signed).tsig {
+                let fixed = t.rr_start + t.key_name.wire_len();
+                if signed.len() >= fixed + 10 && signed[fixed..fixed + 2] == T_TSIG.to_be_bytes() {
+                    let mut v = signed.clone();
+                    if which != 1 {
+                        v[fixed + 2..fixed + 4].copy_from_slice(&class.to_be_bytes());
+                    }
+                    if which != 0 {
+                        v[fixed + 4..fixed + 8].copy_from_slice(&ttl.to_be_bytes());
+                    }
+                    return (v, "tsig-bad-fixed-fields");
+                }
+            }
+        }
         if !any_signature {
             return (signed, "tsig-valid");
         }
